@@ -116,7 +116,7 @@ func gen(p protos.P, limit uint32, r *core.Rand, routes map[string]string, valid
 		return input{Class: "raw-inner-length", Bytes: b}
 	case x < 16 && p.Pipe && limit <= 1<<20:
 		// decompression bomb through the registered gzip filter: small on the wire, far above the limit inflated
-		inflated := int(limit)*64 + 1<<20
+		inflated := int(limit)*16 + 256<<10
 		body := gz(inflated)
 		s := wire.Spec{Seq: 7, Mtype: erpc.TypeCall, Method: routes["echo"], Codec: codec.ID_PLAIN, Body: nil, Class: map[string]string{}}
 		fs, err := rawpeer.Pack(p, s)
@@ -246,6 +246,8 @@ func main() {
 		if !q.Quiescent {
 			core.Result(core.R{ID: id, Verdict: core.Inconclusive, What: "watchdog: not quiescent after feeding"})
 			c.Close()
+			// let the leftover work finish so that it cannot pollute the next measurement
+			quiesce.Wait(quiesce.Options{Timeout: 5 * time.Minute})
 			continue
 		}
 		runtime.ReadMemStats(&m1)
@@ -256,7 +258,7 @@ func main() {
 		}
 		if effLimit <= 1<<20 {
 			growth := m1.TotalAlloc - m0.TotalAlloc
-			bound := 8*(uint64(effLimit)+uint64(len(in.Bytes))) + 1<<20
+			bound := 8*(uint64(effLimit)+uint64(len(in.Bytes))) + 4<<20
 			core.Max("max_totalalloc_growth", int64(growth))
 			if growth > bound {
 				viols = append(viols, [2]string{"over-allocation", fmt.Sprintf("%d bytes allocated while receiving %d bytes with read limit %d (bound %d)", growth, len(in.Bytes), effLimit, bound)})
